@@ -167,11 +167,12 @@ CHECKS = {
    text="Decides the closed-form clauses for all pairs, temperatures and fields: the Marcus expression satisfies k(dG)/k(-dG) = exp(dG/kT) "
         "for equal reorganisation energies, is linear in J^2 and positive; Rate() feeds +dG/-dG with the same coupling, the charge "
         "table and the q R.F term, and the reverse event uses -R; the escape rate is the sum of event rates from zero; the waiting "
-        "time is -ln(u)/k. For the selection tree only necessary structural conditions are decided (both leaves set on last-level nodes, "
-        "one orientation used throughout). "
+        "time is -ln(u)/k. For the selection tree the local conditions are decided (every event becomes a leaf once, last-level and inner "
+        "node probabilities, the shift recurrence a_left = a + P(right), a_right = a, thresholds a + P(right part), one orientation in "
+        "construction, descent and leaf choice); by structural induction (DESIGN.md section 4 C14) they imply that each event is selected on an "
+        "interval of length rate/escape-rate and every p in [0,1] selects an event, for every merge order of the priority queue. "
         + 'Also: QMPair persistence keeps the per-carrier tables - the record field WriteData fills from lambda0_/Jeff2_.getValue(X) is the field ReadData hands to setValue(., X), for all four carrier kinds. ',
-   note="NOT decided: that the lookup thresholds partition [0,1] in proportion to the rates (dynamics of the priority-queue "
-        "construction), uniformity of the random numbers, the physical sign convention of the field term (the code's dG = (E1-E2) + q R.F "
+   note="NOT decided: floating-point rounding of the cumulative thresholds, that the merge order balances the tree (efficiency only), uniformity of the random numbers, the physical sign convention of the field term (the code's dG = (E1-E2) + q R.F "
         "is taken as the definition). xtp is parsed, not built."),
  "C17": dict(cat="other", ref="DESIGN.md section 4 C17",
    technique="enumerator-to-open-mode table from the constructor's switch, CFG required-edge for the read-only guard, sibling agreement of writer/reader overload kinds and of the matrix hyperslab parameters, try/catch shape of every public operator(), overwrite rule followed through helpers (what runs when creation throws: handler + fall-through must unlink and re-create)",
@@ -179,7 +180,7 @@ CHECKS = {
         "value kind the writer stores has a reader; the matrix writer and reader use identical hyperslab selections and transfer "
         "spaces (so the stored layout is the read layout for every shape); reading a missing name or any HDF5 failure becomes a thrown "
         "std::runtime_error; re-writing an existing name unlinks and re-creates the object (so the old value is replaced for any new shape)."
-        + 'Also: every construction of a CheckpointWriter from a group in checkpoint.cc lies behind the READ rejection; list members are written and fetched by the same name function of the position; for the five parsable row classes (Atom, QMAtom, StaticSite, PolarSite, QMPair) every field of the row record has one column at its own offset and type, is filled by WriteData and consumed by ReadData, and each member slot is restored from the column it was stored in. ',
+        + 'Also: every construction of a CheckpointWriter from a group in checkpoint.cc lies behind the READ rejection; list members are written and fetched by the same name function of the position; for the five parsable row classes (Atom, QMAtom, StaticSite, PolarSite, QMPair) every field of the row record has one column at its own offset and type, is filled by WriteData and consumed by ReadData, and each member slot is restored from the column it was stored in; a scalar attribute that is reopened when its name exists is created with a value-independent type. ',
    note="Not decided: HDF5's behaviour, bit-identity of the transferred values, non-ASCII strings, CptTable's own HDF5 compound-type calls, the row classes in units that need libint/libecpint headers (not installed). "
         "xtp is parsed, not built; the overwrite defect was replayed with a stand-alone harness (replays/C17_overwrite.cc) and fixed."),
  "C19": dict(cat="other", ref="DESIGN.md section 4 C19",
